@@ -335,6 +335,29 @@ def edge_schedules():
     return out
 
 
+def precision_edge_schedules():
+    """Systematic family for global_time_precision = 1: one or two processes with timesteps on the 10^-1 grid and two
+    calls with fractional lengths, so that calls start at non-zero grid times whose float sums are inexact
+    (0.2 + 0.1, 0.3 + 0.6, 0.7 + 0.1, ...) and the clock makes jumps larger than its current value."""
+    out = []
+    grid = [0.1, 0.2, 0.3, 0.6, 0.7, 0.9]
+    for dt in (0.2, 0.3, 0.6, 0.7, 0.9):
+        for a_ in grid:
+            for b_ in grid:
+                for f1 in (False, True):
+                    out.append({'procs': [{'name': 'p0', 'timestep': dt, 'cond': 'always', 'parallel': False}],
+                                'flipper': None, 'calls': [{'interval': a_, 'force': f1}, {'interval': b_, 'force': True}],
+                                'precision': 1, 'order': [0], 'emit_step': 1})
+    for dts in ([0.2, 0.7, 0.9], [0.1, 0.6], [0.3, 0.9, 0.2]):
+        for other in (0.9, 0.3):
+            for length in (1.8, 0.9, 1.2):
+                out.append({'procs': [{'name': 'p0', 'timestep': dts[0], 'dts': sorted(dts), 'cond': 'always', 'parallel': False},
+                                      {'name': 'p1', 'timestep': other, 'cond': 'always', 'parallel': False}],
+                            'flipper': None, 'calls': [{'interval': length, 'force': True}],
+                            'precision': 1, 'order': [0, 1], 'emit_step': 1})
+    return out
+
+
 def in_shrink_region(tr):
     """Region of the known finding F-C03-shrink: a process was polled and DEFERRED (its requested step
     overshot the end of the call, so neither its condition nor next_update was consulted), and at its
